@@ -104,7 +104,11 @@ def next_section(name="", report=MAIN_REPORT):
             new_code = ''.join(sections[section_index])
             old_code = ''.join(sections[:section_index])
             # Count line breaks the way Python's parser does (\r\n, \r and \n)
-            report.submission.set_line_offset(len(re.split(r'\r\n|\r|\n', old_code))-1)
+            line_breaks = len(re.split(r'\r\n|\r|\n', old_code))-1
+            # A \r\n pair cut in two by the end of the marker is still one line break
+            if old_code.endswith('\r') and new_code.startswith('\n'):
+                line_breaks -= 1
+            report.submission.set_line_offset(line_breaks)
         else:
             new_code = ''.join(sections[:section_index + 1])
         report.submission.replace_main(new_code)
